@@ -1,0 +1,41 @@
+//go:build verif
+
+// Contracts for package allocators, checked by /verif/govc (comment-only file:
+// it adds no code, and is not even parsed unless the `verif` build tag is set).
+
+package allocators
+
+//@ global ErrOverflow immutable
+//@ global ErrNoAddrAvail immutable
+//@ init-ensures ErrOverflow != nil && ErrNoAddrAvail != nil && ErrOverflow != ErrNoAddrAvail
+
+//@ pure func aligned(x bv128, p int) bool = ((x >> (128 - p)) << (128 - p)) == x
+//@ pure func blockdist(x bv128, y bv128, p int) bv128 = ite(x >= y, (x - y) >> (128 - p), (y - x) >> (128 - p))
+//@ pure func nthblock(base bv128, n uint64, p uint64) bv192 = zext(192, base) + (zext(192, n) << (128 - p))
+
+//@ func Offset
+//@   requires len(a) == 16 && len(b) == 16
+//@   requires 0 <= prefixLength && prefixLength <= 128
+//@   requires (u128(a) >= u128(b) && aligned(u128(b), prefixLength)) || (u128(b) >= u128(a) && aligned(u128(a), prefixLength))
+//@   modifies nothing
+//@   ensures[C20:overflow-iff] (err != nil) <==> (blockdist(u128(a), u128(b), prefixLength) >= (bv(128, 1) << 64))
+//@   ensures[C20:index-exact] err == nil ==> zext(128, ret) == blockdist(u128(a), u128(b), prefixLength)
+//@   ensures[C20:overflow-kind] err != nil ==> err == ErrOverflow
+//@   split prefixLength 0..128
+
+//@ func AddPrefixes
+//@   requires len(ip) == 16
+//@   requires unit <= 128
+//@   modifies nothing
+//@   ensures[C20:overflow-iff] (err != nil) <==> (nthblock(old(u128(ip)), n, unit) >= (bv(192, 1) << 128))
+//@   ensures[C20:base-exact] err == nil ==> len(ret) == 16 && zext(192, u128(ret)) == nthblock(old(u128(ip)), n, unit)
+//@   ensures[C20:overflow-kind] err != nil ==> err == ErrOverflow
+//@   split unit 0..128
+
+//@ lemma inverse(base bv128, n uint64, p int)
+//@   requires 0 <= p && p <= 128
+//@   requires aligned(base, p)
+//@   requires nthblock(base, n, uint64(p)) < (bv(192, 1) << 128)
+//@   ensures[C20:inverse] trunc(128, nthblock(base, n, uint64(p))) >= base
+//@   ensures[C20:inverse] blockdist(trunc(128, nthblock(base, n, uint64(p))), base, p) == zext(128, n)
+//@   split p 0..128
